@@ -240,6 +240,10 @@ def run_case(case, ctx):
             before = _snapshot(ds, b)
             # the rewritten rows hold the new values exactly
             cur = {t[0]: t for t in before["listing"]}
+            gone = [i for i in ids if i not in cur]
+            if gone:
+                # (rewrites and a metadata update remove nothing: every id handed out above is still listed)
+                viols.append(("events-no-longer-listed-after-rewrites-and-a-metadata-update", f"backend={backend} ids={ids} missing={gone}"))
             if ids[-1] in cur:
                 _cmp("upsert", _want(case["repl"][2]), cur[ids[-1]], viols)
             if len(ids) > 1 and ids[0] in cur and ids[0] != ids[-1]:
